@@ -161,7 +161,11 @@ pub fn gen_c11(rng: &mut Rng, thorough: bool, run_index: u64) -> LspTrace {
     }
     let slots = rng.range(2, 4);
     let texts = text_pool(rng, slots);
-    let uris: Vec<&str> = WS_URIS[..slots].to_vec();
+    let mut uris: Vec<&str> = WS_URIS[..slots].to_vec();
+    if rng.chance(1, 5) {
+        // a second spelling of the URI of the first document (percent-encoded letter, dot segment)
+        uris.push(*rng.pick(&["ws:%61.st", "ws:./a.st", "ws:sub/../a.st"]));
+    }
     let use_ws_folder = rng.chance(1, 3);
     let ws_files = if use_ws_folder || rng.chance(1, 6) { gen_ws_files(rng, &texts) } else { vec![] };
     // swarm: which fault kinds are enabled for this history
@@ -299,6 +303,9 @@ pub fn gen_c15(rng: &mut Rng, _thorough: bool) -> LspTrace {
     if rng.chance(1, 4) {
         uris.push(*rng.pick(ODD_URIS));
     }
+    if rng.chance(1, 6) {
+        uris.push(*rng.pick(&["ws:%61.st", "ws:./a.st", "ws:sub/../a.st"]));
+    }
     let allow_restart = rng.chance(1, 3);
     let allow_multi = rng.chance(1, 3);
     let len = if rng.chance(1, 2) { rng.range(2, 8) } else { rng.range(6, 30) };
@@ -357,13 +364,13 @@ impl Model {
         match ev {
             Event::Open { uri, version, text } => {
                 if uri_path(uri).is_some() {
-                    self.docs.insert(uri.clone(), (*version, text.clone()));
+                    self.put(uri, *version, text.clone());
                 }
             }
             Event::Change { uri, version, texts } => {
                 if uri_path(uri).is_some() {
                     if let Some(last) = texts.last() {
-                        self.docs.insert(uri.clone(), (*version, last.clone()));
+                        self.put(uri, *version, last.clone());
                     }
                 }
             }
@@ -380,15 +387,21 @@ impl Model {
         }
         if m == "textDocument/didOpen" {
             if let Some(text) = td["text"].as_str() {
-                self.docs.insert(uri.to_string(), (version as i32, text.to_string()));
+                self.put(uri, version as i32, text.to_string());
             }
         } else if m == "textDocument/didChange" {
             if let Some(last) = sent["params"]["contentChanges"].as_array().and_then(|a| a.last()) {
                 if let Some(text) = last["text"].as_str() {
-                    self.docs.insert(uri.to_string(), (version as i32, text.to_string()));
+                    self.put(uri, version as i32, text.to_string());
                 }
             }
         }
+    }
+    /// Stores a document; another URI spelling of the same file is the same document.
+    fn put(&mut self, uri: &str, version: i32, text: String) {
+        let path = uri_path(uri);
+        self.docs.retain(|u, _| uri_path(u) != path);
+        self.docs.insert(uri.to_string(), (version, text));
     }
     /// documents keyed by path (two URIs may denote the same file)
     pub fn by_path(&self) -> BTreeMap<String, String> {
@@ -454,6 +467,12 @@ pub fn run_history(t: &LspTrace) -> History {
 
 // ---------------------------------------------------------------------------------------------
 // Helpers over recorded JSON
+
+/// URIs are compared after RFC 3986 normalisation (the server parses and re-serialises them, so
+/// `file:///r/ws/./a.st` comes back as `file:///r/ws/a.st`).
+fn norm_uri(u: &str) -> String {
+    lsp_types::Url::parse(u).map(|p| p.to_string()).unwrap_or_else(|_| u.to_string())
+}
 
 fn is_response(v: &Value) -> bool {
     v.get("id").is_some() && v.get("method").is_none()
@@ -609,7 +628,7 @@ fn fresh_server_publish(t: &LspTrace, model: &Model, uri: &str, version: i32, se
     let step = inc.steps.iter().find(|s| s.label == "target").ok_or("no target step")?;
     let target_uri = expand_uri(uri);
     let all = publish_of(step);
-    let pubs: Vec<&Value> = all.iter().copied().filter(|p| p["params"]["uri"].as_str() == Some(&target_uri)).collect();
+    let pubs: Vec<&Value> = all.iter().copied().filter(|p| p["params"]["uri"].as_str().map(norm_uri) == Some(norm_uri(&target_uri))).collect();
     if pubs.len() != 1 {
         return Err(format!("fresh server published {} notifications for the document", pubs.len()));
     }
@@ -709,7 +728,7 @@ fn oracle_c11(t: &LspTrace, h: &History, stats: &mut Stats) -> Vec<Violation> {
             // version (what else the server chooses to send — publishes for other documents, log
             // messages — is not constrained by the property and only counted)
             let all_pubs = publish_of(step);
-            let pubs: Vec<&Value> = all_pubs.iter().copied().filter(|p| p["params"]["uri"].as_str() == Some(&uri)).collect();
+            let pubs: Vec<&Value> = all_pubs.iter().copied().filter(|p| p["params"]["uri"].as_str().map(norm_uri) == Some(norm_uri(&uri))).collect();
             if step.outputs.len() > pubs.len() {
                 stats.add("c11.other_outputs_in_edit_steps", (step.outputs.len() - pubs.len()) as u64);
             }
